@@ -5,6 +5,7 @@ package c19
 
 import (
 	"encoding/json"
+	"errors"
 	"fmt"
 	"os"
 	"os/exec"
@@ -213,6 +214,8 @@ func (w *world) cleanup() {
 	close(stop)
 }
 
+var errProducer = errors.New("producer failed")
+
 // ---- scenarios ----------------------------------------------------------------------------------
 
 func scenarios() []vrt.Scenario {
@@ -300,6 +303,22 @@ func scenarios() []vrt.Scenario {
 			w.s.Spawn("unsubA2-then-send", false, func() {
 				w.unsubscribe(a, a.sub)
 				w.send(1)
+			})
+		}),
+		mk("S14-producer-subscription-fails-then-unsubscribe", func(w *world) {
+			// a subscription built with NewSubscription whose producer fails while nobody reads Err():
+			// Unsubscribe (directly and through a scope) must still return; a feed send runs alongside
+			a := w.newSub("A", 1)
+			w.subscribe(a)
+			w.s.Spawn("owner", false, func() {
+				var scope event.SubscriptionScope
+				sub := event.NewSubscription(func(quit <-chan struct{}) error { return errProducer })
+				tracked := scope.Track(sub)
+				sub2 := event.NewSubscription(func(quit <-chan struct{}) error { return errProducer })
+				w.send(1)
+				sub2.Unsubscribe()
+				scope.Close()
+				tracked.Unsubscribe()
 			})
 		}),
 		mk("S6-self-unsubscribe-after-first-value", func(w *world) {
